@@ -678,7 +678,7 @@ func (e *SpecEnv) specEq(a, b Value) string {
 	if a.K != b.K {
 		specFail("comparison of different kinds %d / %d", a.K, b.K)
 	}
-	if a.K == KOpaque && (strings.HasPrefix(a.S, "(seq ") || strings.HasPrefix(b.S, "(seq ")) {
+	if a.K == KOpaque && strings.HasPrefix(a.S, "(seq ") && strings.HasPrefix(b.S, "(seq ") {
 		x.needSeqExt() // equality of byte-sequence abstractions is extensional
 	}
 	if a.K == KSlice {
